@@ -123,3 +123,34 @@ def has_cycle(g):
         return False
 
     return any(u not in color and dfs(u) for u in adj)
+
+
+def submit_cases(ctx, rng, tag, nlibs, per):
+    """task-rooted acyclic graphs for the submit worker; returns (libs, cases)"""
+    from .gen import cfggen
+    libs, cases = [], []
+    for li in range(nlibs):
+        lib = cfggen.gen_library(rng, f"{tag}_{ctx.seed}_{li}")
+        libs.append(lib)
+        tries = 0
+        while sum(1 for c in cases if c["lib"] == li) < per and tries < per * 30:
+            tries += 1
+            g = cfggen.gen_graph(rng, lib, max_nodes=rng.choice([3, 6, 9]), cycles=False)
+            cls = next(c for c in lib["classes"] if c["name"] == g["nodes"][0]["cls"])
+            if cls["kind"] == "task" and not any(nd["task"] is not None for nd in g["nodes"]):
+                cases.append({"lib": li, "graph": g})
+    return libs, cases
+
+
+def run_submit(ctx, libs, cases, shards=6):
+    from concurrent.futures import ThreadPoolExecutor
+    tmp = ctx.tmpdir()
+    parts, k = split(list(enumerate(cases)), shards)
+    recs = [None] * len(cases)
+    with ThreadPoolExecutor(max_workers=8) as ex:
+        futs = [(part, ex.submit(run_worker, {"libs": libs, "cases": [c for _, c in part]}, tmp, f"sub-{pi}", None, "xv.impl.submit_worker"))
+                for pi, part in enumerate(parts)]
+        for part, f in futs:
+            for (ci, _), r in zip(part, f.result()):
+                recs[ci] = r
+    return recs
